@@ -953,7 +953,7 @@ def write_evidence(pid, tier, seed, t0, legs, notes, refuted=(), new=(), undecid
 
 TRUSTED_ALWAYS = [
     'soundness of Verus / Z3; rustc 1.98.1 (Verus) agrees with the toolchain that builds /repo on the semantics of the extracted functions',
-    'rewrite rules R1-R13 of DESIGN.md 3.1 (each application listed under coverage.rewrite_rules)',
+    'rewrite rules R1-R14 of DESIGN.md 3.1 (each application listed under coverage.rewrite_rules)',
     'vstd specifications of Vec, BTreeMap, Option, Result, integer conversions',
 ]
 
